@@ -278,6 +278,16 @@ class PX:
         if k == 'I':
             base_pl = self.canon(st, pl[1])
             idx = pl[2]
+            bv = self.read_opt(st, base_pl) if base_pl[0] in ('L', 'F') else None
+            if bv is not None and bv[0] == 'arrval':
+                # element of an array obtained from a slice by <[T; N]>::try_from: a byte of that slice
+                i = idx[1] if idx[0] in ('int', 'cidx') else None
+                if i is not None and not (idx[0] == 'cidx' and idx[3]):
+                    return ('byte', bv[1], i, ())
+            if bv is not None and bv[0] == 'array':
+                i = idx[1] if idx[0] in ('int', 'cidx') else None
+                if i is not None and not (idx[0] == 'cidx' and idx[3]) and i < len(bv[1]):
+                    return bv[1][i]
             if idx[0] == 'int':
                 return ('byte', base_pl, idx[1], ()) if self.is_subject(st, base_pl) else ('elem', self.read_opt(st, base_pl), idx)
             if idx[0] == 'cidx' and not idx[3]:
@@ -651,7 +661,18 @@ class PX:
         """canonical place of the byte string a pointer value designates"""
         if ptr[0] == 'cref':
             return ('CONST', ptr[1])
-        return self.canon(st, ('P', ptr))
+        pl = self.canon(st, ('P', ptr))
+        if pl[0] in ('L', 'F') and self.root(pl)[0] == 'L':
+            v = self.read_opt(st, pl)
+            if v[0] == 'arrval':
+                return v[1]
+            if v[0] == 'array' and v[1] and all(x[0] == 'byte' and x[3] == () and x[2] == i and x[1] == v[1][0][1] for i, x in enumerate(v[1])):
+                # an array rebuilt from the first n bytes of a subject whose length is known to be exactly n IS that subject
+                subj = v[1][0][1]
+                shp = st.shapes.get(subj)
+                if shp is not None and shp.lengths() == {len(v[1])}:
+                    return subj
+        return pl
 
     # ---------------------------------------------------------------- tags and decisions
     def tag_core(self, v):
